@@ -373,6 +373,10 @@ def run_property(modname, tier, seed, jobs=None):
           f"exhaustive={coverage['exhaustive']} wall={time.time() - t_start:.1f}s")
     if violations:
         return EXIT_VIOLATION
+    if getattr(mod, "UNCONFIRMED_OK", False) and unconfirmed:
+        for uc in unconfirmed[:5]:
+            print("UNCONFIRMED-CANDIDATE (logged only, see the check's assumptions):", json.dumps(uc, default=str)[:300])
+        unconfirmed = []
     if errors or unconfirmed or fid_bad or vacuous:
         for e in errors[:3]:
             print("ENGINE-ERROR:", e[-1500:])
